@@ -128,7 +128,17 @@ package referenceserver
 //@      (req.TLS == nil || (!hdrDup(req.Header, "X-Expect-Client-Cert") &&
 //@         hdrVal(req.Header, "X-Expect-Client-Cert") == (len(req.TLS.PeerCertificates) > 0 ? req.TLS.PeerCertificates[0].Subject.CommonName : ""))))
 
+// the codec a (non-GET) request names through its content type: gRPC and gRPC-Web without a
+// "+codec" suffix mean proto; otherwise it is what follows "application/grpc+",
+// "application/grpc-web+", "application/connect+" or, for unary Connect, "application/"
+//@ spec ctCodec(ct string) string =
+//@     (ct == "application/grpc" || ct == "application/grpc-web") ? "proto" :
+//@     (hasPrefix(ct, "application/grpc+") ? ct[17:] : (hasPrefix(ct, "application/grpc-web+") ? ct[21:] : (hasPrefix(ct, "application/connect+") ? ct[20:] : ct[12:])))
 //@ func checkCodec
+//@   ensures @by-content-type req.Method != "GET" && (expected == 1 || expected == 2) && hasPrefix(hdrVal(req.Header, "Content-Type"), "application/") ==>
+//@       (fbCount[feedback] == old(fbCount[feedback])) == (!hdrDup(req.Header, "Content-Type") && ctCodec(hdrVal(req.Header, "Content-Type")) == (expected == 1 ? "proto" : "json"))
+//@   ensures @no-codec req.Method != "GET" && (expected == 1 || expected == 2) && !hasPrefix(hdrVal(req.Header, "Content-Type"), "application/") ==>
+//@       (fbCount[feedback] == old(fbCount[feedback])) == !hdrDup(req.Header, "Content-Type")
 //@   requires wfFeedback(feedback) && req != nil && req.URL != nil && req.Body != nil
 //@   modifies fbCount, []byte, lastReadN, lastReadErr, lastReadArr
 //@   ensures @post req.Method != "GET" && (expected == 1 || expected == 2) && hdrVal(req.Header, "Content-Type") == "application/grpc" ==>
